@@ -22,7 +22,9 @@ ASSUMPTIONS = [
 
 PROFILE = scenario.profile(maxD=3, extra_budget=(15, 60), cons_x0=("margin",), p_cons=0.15, p_seed_none=0.0,
                            noise_modes=("declared", "none", "specified", "auto", "none", "specified"), specified_spellings=("both", "alone"),
-                           max_iter_choices=(None,), tol_mesh_choices=(None,), target_kinds=("quad", "l1", "rosen", "maxn"))
+                           max_iter_choices=(None,), tol_mesh_choices=(None,), target_kinds=("quad", "l1", "rosen", "maxn"),
+                           # documented option that switches on the warning path taken after a failed fit attempt
+                           extra_opts=(("gp_warnings", (True,), 0.25),))
 N = {"quick": 32, "thorough": 128}
 
 
